@@ -20,21 +20,30 @@ Init == /\ b \in 1..Len(Base) /\ d \in 0..(IF MaxDia = 0 THEN 0 ELSE Len(Dia)) /
            \/ shape \in {"set", "match"} /\ kind = "n" /\ x \in 1..5 /\ pos \in BOOLEAN /\ g = 0 /\ inv = FALSE
            \/ shape = "alpha" /\ kind = "f" /\ d = 0 /\ b % AlphaStride = Seed % AlphaStride
               /\ x \in 1..NFeat /\ g \in 1..NFeat /\ inv \in BOOLEAN /\ pos = TRUE
+           \* a matrix naming a binary feature AND an alpha, on a word of two segments (Partner first): every segment is judged on its own,
+           \* nothing learnt on a segment that fails may reach the next one
+           \/ shape = "combo" /\ kind = "f" /\ d = 0 /\ b % AlphaStride = Seed % AlphaStride
+              /\ x \in 1..NFeat /\ g = ((x + 5) % NFeat) + 1 /\ inv \in BOOLEAN /\ pos \in BOOLEAN
 
 \* the marker used by the "match" shape flips the voicing of the segment, so that a match is visible in the bundle
 Marker(s) == SetFeat(s, F_VOICE, ~Bit(s.lar, 4))
 
+F1 == IF inv THEN ((x + 2) % NFeat) + 1 ELSE ((x + 11) % NFeat) + 1          \* the binary feature of a combo: one with a lower, one with a higher index than the alpha
+Partner == Base[((b * 7 + x) % Len(Base)) + 1]
+Combo(s) == IF MatchFeat(s, F1, pos) /\ AlphaBinds(s, x) THEN SetFeat(s, g, AlphaVal(s, x)) ELSE s
 Outcome(s) ==
   CASE shape = "set" /\ kind = "f"   -> <<"ok", SetFeat(s, x, pos)>>
     [] shape = "set" /\ kind = "n"   -> SetNode(s, NodeTab[x], pos)
     [] shape = "match" /\ kind = "f" -> <<"ok", IF MatchFeat(s, x, pos) THEN Marker(s) ELSE s>>
     [] shape = "match" /\ kind = "n" -> <<"ok", IF MatchNode(s, NodeTab[x], pos) THEN Marker(s) ELSE s>>
     [] shape = "alpha"               -> <<"ok", AlphaCopy(s, x, g, inv)>>
+    [] shape = "combo"               -> <<"ok", Combo(s)>>
 
 Next == res = <<>> /\ res' = Outcome(Target(b, d)) /\ UNCHANGED <<b, d, shape, kind, x, pos, g, inv>>
 
 Emit == res # <<>> => PrintT(ToJson([seg |-> Target(b, d), shape |-> shape, kind |-> kind, x |-> x, pos |-> pos, g |-> g, inv |-> inv,
-                                     voiced |-> Bit(Target(b, d).lar, 4), st |-> res[1], exp |-> res[2]]))
+                                     voiced |-> Bit(Target(b, d).lar, 4), st |-> res[1], exp |-> res[2],
+                                     f1 |-> F1, seg2 |-> Partner, exp2 |-> IF shape = "combo" THEN Combo(Partner) ELSE Partner]))
 
 \* design-level laws, checked on the same enumeration (every target segment, every feature)
 Laws == res # <<>> /\ kind = "f" /\ shape = "set" =>
